@@ -424,15 +424,21 @@ def run_weights():
 def run_subst():
     rng = chk.rng('subst')
     cases = [({'a': 'b'}, 'x $a{1} $a'), ({}, 'x $a'), ({'a': 'b'}, '$'), ({'a': 'b'}, 'foo $'), ({'a': 'b'}, '$a$a'),
-             ({'a': 'b', 'ab': 'c'}, '$ab $a"x'), ({'a': ''}, '$a'), ({'a': 'b'}, '$ a'), ({'a': 'x y'}, 'q $a\t$a}')]
-    names = ['a', 'ab', 'prot', 'X1']
+             ({'a': 'b', 'ab': 'c'}, '$ab $a"x'), ({'a': ''}, '$a'), ({'a': 'b'}, '$ a'), ({'a': 'x y'}, 'q $a\t$a}'),
+             # a name ends at one of ' ${}\n\t"' ONLY: every other character belongs to the name
+             ({'bb': 'P5', 'bb-helix': 'N0'}, '1 $bb-helix 1 $bb'), ({'fc': '500', 'fc.stiff': '1250'}, 'BB SC1 1 0.3 $fc.stiff'),
+             ({'bb': 'P5'}, '$bb-helix'), ({'bb-helix': 'N0'}, '{"atype": $bb-helix}'), ({'9a': 'x', '9': 'y'}, '$9a$9'),
+             ({'a:b': 'x', 'a': 'y'}, '"$a:b"$a')]
+    names = ['a', 'ab', 'prot', 'X1', 'a-b', 'a.b', 'a:b', 'a/b', 'a+', 'a@b', '1a', '-a', 'prot-2', 'prot.x', 'X1=', 'a,b', 'a|b',
+             "a'", 'a*', 'a(b)', 'a;b', 'a#', 'a[0]', 'a~', 'a%', 'ab&', 'a!', 'a?', 'a<b>', 'a^', 'a\\b', 'a_b']
     for _ in range(10000 if chk.thorough else 1500):
-        ms = {n: rng.choice(['b', 'ALA', '0.25 1000', '{"x": 1}', '']) for n in rng.sample(names, rng.randint(0, 4))}
+        ms = {n: rng.choice(['b', 'ALA', '0.25 1000', '{"x": 1}', '']) for n in rng.sample(names, rng.randint(0, 6))}
         parts = []
         for _ in range(rng.randint(1, 6)):
             k = rng.random()
             if k < 0.45:
-                parts.append('$' + rng.choice(names + ['zz']))
+                # mostly defined names (with their prefixes / extensions among `names`), sometimes any name
+                parts.append('$' + rng.choice(sorted(ms) if ms and rng.random() < 0.7 else names + ['zz']))
             else:
                 parts.append(rng.choice(['BB', '1', '{', '}', '"', 'x']))
         s = ''.join(p + rng.choice([' ', '', '\t', ' ']) for p in parts).strip()
@@ -451,14 +457,20 @@ def run_subst():
             if '$' in out:
                 errs.append('"$" left after substitution: %r -> %r' % (s, out))
             # independent statement: every $name delimited by one of ' ${}\n\t"' or the end is replaced
-            want = re.sub(r'\$([^ \t\n{}$"]*)', lambda mt: ms[mt.group(1)], s)
-            if out != want:
+            try:
+                want = re.sub(r'\$([^ \t\n{}$"]*)', lambda mt: ms[mt.group(1)], s)
+            except KeyError as exc:
+                want = None
+                errs.append('substitution %r -> %r although the macro %s is not defined (%r)' % (s, out, exc, ms))
+            if want is not None and out != want:
                 errs.append('substitution %r -> %r, expected %r' % (s, out, want))
         else:
             used = re.findall(r'\$([^ \t\n{}$"]*)', s)
             if all(u in ms for u in used) and not s.endswith('$'):
                 errs.append('all macros defined but substitution failed: %r %r' % (s, ms))
         chk.count('subst_' + im.split()[0])
+        if im != 'error' and re.search(r'\$\w*[^\w \t\n{}$"]', s):
+            chk.count('subst_name_with_punctuation_ok')
         chk.case('subst-%d' % i, ln, im, mo, errs, '$' in s)
 
 
@@ -565,8 +577,8 @@ class Gen:
             pass
         if self.macros and r.random() < 0.2:
             name = r.choice(sorted(self.macros))
-            ps.append('$' + name)
-            return ps, ps[:-1] + self.macros[name].split()
+            j = r.randint(1, len(ps))       # mostly the end of the line, also between two columns (blank / tab after it)
+            return ps[:j] + ['$' + name] + ps[j:], ps[:j] + self.macros[name].split() + ps[j:]
         return ps, list(ps)
 
     META_VALUES = {'version': [1, 2, 3], 'group': ['g', 'h', 'bb'], 'comment': ['c0', 'c1', 'c2'], 'ifdef': ['FLEX', 'X']}
@@ -595,11 +607,28 @@ class Gen:
         return [json.dumps(own)], {**cur, **own}
 
     # ---- sections -------------------------------------------------------------------------
+    MACRO_PUNCT = ['-', '.', ':', '/', '+', '@', '=', ',', '|', "'", '*', '(', ')', '<', '>', '~', '%', '&', '!', '?', '^', '_', '-', '.']
+
     def macros_section(self):
         self.header('macros')
-        for _ in range(self.rng.randint(1, 2)):
-            name = 'm%d' % self.rng.randint(0, 3)
-            value = self.rng.choice(['0.33', '1250', 'P5'])
+        r = self.rng
+        todo = []
+        for _ in range(r.randint(1, 2)):
+            name = 'm%d' % r.randint(0, 3)
+            k = r.random()
+            if k < 0.5:
+                # a name ends at one of ' ${}\n\t"' only: any other punctuation, a leading digit, belong to the name;
+                # often BOTH the name and its prefix up to that character are macros (`m1` and `m1-helix`)
+                ext = name + r.choice(self.MACRO_PUNCT) + r.choice(['', 'helix', 'stiff', '2', name])
+                if r.random() < 0.3:
+                    ext = r.choice(['9', '0', '-', '.', '+']) + ext
+                pair = [ext, name] if r.random() < 0.5 else [name, ext]
+                todo += pair if r.random() < 0.7 else [ext]
+                chk.count('ff_macro_name_with_punctuation')
+            else:
+                todo.append(name)
+        for name in todo:
+            value = r.choice([v for v in ['0.33', '1250', 'P5', '7500', '17', '0.5'] if v not in self.macros.values()] or ['0.33'])
             if self.macros and self.rng.random() < 0.3:
                 other = self.rng.choice(sorted(self.macros))
                 self.emit('%s $%s' % (name, other))
